@@ -37,6 +37,7 @@ import concurrent.futures
 import glob
 import json
 import os
+import re
 import subprocess
 
 import fs_tie
@@ -209,6 +210,39 @@ def _differs(ctx, go, model, lines, tag="dd"):
     return bool(compare(lines, _lines(a), _lines(b)))
 
 
+def _reached_outside_root(ctx, model, small, diffs):
+    """spy bottoms: the first differing `calls` line against the root of the handle of the call before it"""
+    for i, o, x, y in diffs:
+        if not o.startswith("calls ") or i == 0 or not x.startswith("calls"):
+            continue
+        f = small[i - 1].split(" ")
+        if len(f) < 2 or f[0] in ("view", "new", "reset", "dump", "calls", "chk"):
+            continue
+        h = f[2] if f[0] == "q" else f[1]
+        probe = small[:i - 1] + ["isdir %s -" % h, "calls 0"]
+        ops = ctx.path("root.ops")
+        open(ops, "w").write("\n".join(probe) + "\n")
+        out = ctx.path("root.model")
+        rc, err = _sh(ctx, [model], stdin=ops, stdout=out)
+        last = (_lines(out) or [""])[-1]
+        m = re.match(r"calls isdir:([0-9a-f-]*)$", last)
+        if rc != 0 or not m:
+            continue
+        root = bytes.fromhex(m.group(1)) if m.group(1) not in ("-", "") else b""
+        rsegs = [t for t in root.split(b"/") if t]
+        for item in x.split(" ")[1:]:
+            word, _, hp_ = item.partition(":")
+            for hx_ in hp_.split(":"):
+                if not re.fullmatch(r"[0-9a-f]*|-", hx_):
+                    continue
+                reached = bytes.fromhex(hx_) if hx_ not in ("-", "") else b""
+                segs = [t for t in reached.split(b"/") if t]
+                if segs[:len(rsegs)] != rsegs:
+                    return ("the call `%s` through handle %s, whose root is `%s`, reached `%s` in the bottom filespace"
+                            % (" ".join(f[:4]), h, root.decode("latin1"), reached.decode("latin1")))
+    return None
+
+
 def _judge_diff(ctx, go, model, hist, what):
     """implementation and model disagree: minimise, then ask the property itself (scan)"""
     small = ctx.ddmin(hist, lambda ls: _differs(ctx, go, model, ls), keep_prefix=1)
@@ -220,7 +254,14 @@ def _judge_diff(ctx, go, model, hist, what):
     ann = ["line %d `%s`  impl: %s  model: %s" % (i, o[:200], x[:200], y[:200]) for i, o, x, y in d[:4]]
     ann += ["property: " + f[:400] for f in fails[:3]]
     concrete = bool(fails)
-    why = ("the implementation changes or reveals something outside the view's root (or panics/hangs) on this input"
+    # a recording ("spy") bottom shows which paths a call really reached.  The model's root of the handle the
+    # call went through is known (theorem stack_delegates_under: every path that reaches the bottom is
+    # root ++ the caller's normal form): a path reached outside that root is the property failing outright.
+    escaped = None if concrete else _reached_outside_root(ctx, model, small, d)
+    if escaped:
+        concrete = True
+        ann.append("property: " + escaped)
+    why = ("the implementation changes, reveals or reaches something outside the view's root (or panics/hangs) on this input"
            if concrete else
            "outside of every root is unchanged and nothing leaks on this input: only the modelled answer differs "
            "(the view-stack model, and with it the proof, no longer describes the code)")
